@@ -20,7 +20,7 @@ Fresh == [alive |-> FALSE, g |-> "nil", cfg |-> FALSE, limited |-> FALSE]
 InitState == [i \in Insts |-> Fresh]
 
 \* input kinds of sqfvm_call with type 's'
-SqfKinds == {"setg1", "setg2", "readg", "readcfg", "ppfail", "parsefail", "rterr", "rterr_spawned", "endless", "sleeper", "napper", "empty"}
+SqfKinds == {"setg1", "setg2", "readg", "readcfg", "ppfail", "parsefail", "rterr", "rterr_spawned", "endless", "sleeper", "yielder", "napper", "empty"}
 CfgKinds == {"cfgok", "cfgparsefail", "cfgppfail"}
 
 ToS(n) == ToString(n)
@@ -58,13 +58,15 @@ Apply(st, o) ==
               [] o.kind = "sleeper" -> [st |-> st, obs |-> [ret |-> (IF DeadlineIsFailure THEN -6 ELSE 0), status |-> 0, out |-> ""]]
               \* a spawned script that sleeps for a moment and then sets the probe: the call waits for it and succeeds -
               \* also on an instance that has existed (and idled) longer than its time budget
+              \* a spawned endless loop that gives up its slice at once, every time (sleep 0): ended by the time limit
+              [] o.kind = "yielder" -> [st |-> st, obs |-> [ret |-> (IF DeadlineIsFailure THEN -6 ELSE 0), status |-> 0, out |-> ""]]
               [] o.kind = "napper" -> [st |-> [st EXCEPT ![o.i].g = "3"], obs |-> [ret |-> 0, status |-> 0, out |-> ""]]
               [] o.kind = "empty" -> [st |-> st, obs |-> [ret |-> 0, status |-> 0, out |-> ""]])
 
 Enabled(st, o) ==
     CASE o.op = "create" -> ~st[o.i].alive
       [] o.op = "null" -> TRUE
-      [] o.op = "call" /\ o.kind \in {"endless", "sleeper"} -> st[o.i].alive /\ st[o.i].limited
+      [] o.op = "call" /\ o.kind \in {"endless", "sleeper", "yielder"} -> st[o.i].alive /\ st[o.i].limited
       [] OTHER -> st[o.i].alive
 
 \* ---- property formulas over one step
